@@ -617,11 +617,13 @@ func cmdSetup() int {
 	if err := buildSeq(b); err != nil {
 		return engineError("%v", err)
 	}
-	if err := buildSched(b, false); err != nil {
-		return engineError("%v", err)
-	}
-	if err := buildSched(b, true); err != nil {
-		return engineError("%v", err)
+	if schedAvailable {
+		if err := buildSched(b, false); err != nil {
+			return engineError("%v", err)
+		}
+		if err := buildSched(b, true); err != nil {
+			return engineError("%v", err)
+		}
 	}
 	fmt.Println("setup ok")
 	return 0
